@@ -84,6 +84,13 @@ def check_case(case):
                 combos.append((False, True))
             if fmt in STREAM_IN and fmt in STREAM_OUT:
                 combos.append((True, True))
+            # '-' as the explicit name of a standard stream (argparse's FileType convention, which every stream-capable decoder uses)
+            if fmt in STREAM_OUT:
+                combos.append((False, "dash"))
+            if fmt in STREAM_IN:
+                combos.append(("dash", False))
+            if fmt in STREAM_IN and fmt in STREAM_OUT:
+                combos.append(("dash", "dash"))
             for si, so in combos:
                 r2 = run.run_decoder(fmt, built.data, built.argv, stdin=si, stdout=so, tmpdir=d)
                 if r2.status != "ok":
@@ -91,6 +98,12 @@ def check_case(case):
                 if r2.out != res.out:
                     raise Violation("stream variant stdin=%s stdout=%s wrote different bytes than the file variant (%s vs %s bytes)"
                                     % (si, so, None if r2.out is None else len(r2.out), len(res.out)), case)
+        elif variant == "preexisting":
+            # the named output file exists already and is longer than the image: the result is still exactly the image
+            r2 = run.run_decoder(fmt, built.data, built.argv, tmpdir=d, prefill=len(res.out) + 4096)
+            if r2.status != "ok" or r2.out != res.out:
+                raise Violation("decoding into an existing, longer output file gives %s bytes (%s), a fresh file %d bytes"
+                                % (None if r2.out is None else len(r2.out), r2.status, len(res.out)), case)
         elif variant == "pipes":
             modname = model.DECODER_MODULE[fmt]
             argv = [sys.executable, "-c", "import sys; from coco.%s import start; start(sys.argv[1:])" % modname] + list(built.argv)
@@ -102,7 +115,37 @@ def check_case(case):
                 inp = b""
             else:
                 inp = built.data
-            pr = subprocess.run(argv, input=inp, stdout=subprocess.PIPE, stderr=subprocess.PIPE, timeout=120)
+            if inp and case.get("slow_pipe") is not None:
+                # the producer delivers the input in two pieces, the second only after the decoder has taken the first out of the pipe:
+                # a reader that treats a short read as the end (or as a full one) decodes something else; timing can only hide that, not fake it
+                import fcntl, struct, termios, time, threading
+                cut = max(1, min(len(inp) - 1, case["slow_pipe"] % len(inp)))
+                pr_ = subprocess.Popen(argv, stdin=subprocess.PIPE, stdout=subprocess.PIPE, stderr=subprocess.PIPE)
+                outs = {}
+                t_out = threading.Thread(target=lambda: outs.update(o=pr_.stdout.read(), e=pr_.stderr.read()))
+                t_out.start()
+                pr_.stdin.write(inp[:cut])
+                pr_.stdin.flush()
+                t0 = time.time()
+                while time.time() - t0 < 5:
+                    pending = struct.unpack("i", fcntl.ioctl(pr_.stdin.fileno(), termios.FIONREAD, struct.pack("i", 0)))[0]
+                    if pending == 0:
+                        break
+                    time.sleep(0.01)
+                time.sleep(0.05)
+                try:
+                    pr_.stdin.write(inp[cut:])
+                    pr_.stdin.close()
+                except BrokenPipeError:
+                    pass
+                t_out.join(120)
+                pr_.wait(120)
+
+                class _PR:
+                    returncode, stdout, stderr = pr_.returncode, outs.get("o", b""), outs.get("e", b"")
+                pr = _PR
+            else:
+                pr = subprocess.run(argv, input=inp, stdout=subprocess.PIPE, stderr=subprocess.PIPE, timeout=120)
             if pr.returncode != 0:
                 raise Violation("decoder over real pipes exited with %d: %s" % (pr.returncode, pr.stderr[-300:]), case)
             if pr.stdout != res.out:
@@ -137,7 +180,9 @@ def cases(draw, fmts, switches, force_skip_half=False):
         variants.append("skip")
     if fmt in STREAM_OUT:
         variants.append("streams")
-    return {"spec": spec, "variant": draw(st.sampled_from(variants))}
+    variants.append("preexisting")
+    # for the real-pipe runs: where the input is cut in two for a slow producer (taken modulo its length; None = delivered at once)
+    return {"spec": spec, "variant": draw(st.sampled_from(variants)), "slow_pipe": draw(st.one_of(st.none(), st.integers(1, 5000)))}
 
 
 def campaign(seed, n, fmts, switches=frozenset(), pipes=False):
